@@ -1056,7 +1056,7 @@ scanBack:
 	// Consume all of them, unless they are preceded by a space or tab.
 scanTrailingHashes:
 	for i := h.content.End - 1; ; i-- {
-		if i <= h.content.Start {
+		if i < h.content.Start {
 			h.content.End = h.content.Start
 			break
 		}
